@@ -3,6 +3,7 @@ package main
 // VC generation: SSA (NaiveForm) of one function -> ordered facts + obligations.
 
 import (
+	"sync"
 	"os"
 	"fmt"
 	"go/constant"
@@ -19,6 +20,7 @@ type Obligation struct {
 	Kind     string
 	Goal     string // formula that must be valid under facts[:NFacts]
 	NFacts   int
+	Blk      *ssa.BasicBlock // block being processed when the obligation was generated (nil: none)
 	Pos      token.Position
 	Desc     string
 	Cover    bool // cover obligation: (facts && Goal) must be SAT
@@ -77,6 +79,12 @@ type Gen struct {
 	unmodelled map[string]bool
 	pa      bool
 	curBlock *ssa.BasicBlock
+	factBlk   map[int]*ssa.BasicBlock
+	visMu     sync.Mutex
+	reachMu   sync.Mutex
+	valBlk    map[string]*ssa.BasicBlock   // SSA value constant -> block that computes it
+	factVals  map[int][]*ssa.BasicBlock    // fact -> blocks of the SSA value constants it mentions (lazily)
+	reachMemo map[*ssa.BasicBlock]map[*ssa.BasicBlock]bool
 	retCount int
 	allocsByName map[string][]*ssa.Alloc
 	backEdges map[[2]int]bool
@@ -162,6 +170,116 @@ func (g *Gen) addFact(f string) {
 	g.facts = append(g.facts, f)
 }
 
+// addFactAt records a fact that is guarded by the reach condition of block b (an assumed clause or an
+// instance of one). Obligations in blocks that b cannot reach leave it out: under their path the guard
+// is an unconstrained later condition, so the fact cannot contribute (dropping hypotheses is sound).
+func (g *Gen) addFactAt(f string, b *ssa.BasicBlock) {
+	if f == "" || f == "true" {
+		return
+	}
+	if b != nil {
+		if g.factBlk == nil {
+			g.factBlk = map[int]*ssa.BasicBlock{}
+		}
+		g.factBlk[len(g.facts)] = b
+	}
+	g.facts = append(g.facts, f)
+}
+
+// blockReaches: there is a CFG path (back edges included) from a to b, or a == b.
+func (g *Gen) blockReaches(a, b *ssa.BasicBlock) bool {
+	if a == b {
+		return true
+	}
+	g.reachMu.Lock()
+	defer g.reachMu.Unlock()
+	if g.reachMemo == nil {
+		g.reachMemo = map[*ssa.BasicBlock]map[*ssa.BasicBlock]bool{}
+	}
+	m := g.reachMemo[a]
+	if m == nil {
+		m = map[*ssa.BasicBlock]bool{}
+		stack := []*ssa.BasicBlock{a}
+		for len(stack) > 0 {
+			x := stack[len(stack)-1]
+			stack = stack[:len(stack)-1]
+			for _, s := range x.Succs {
+				if !m[s] {
+					m[s] = true
+					stack = append(stack, s)
+				}
+			}
+		}
+		g.reachMemo[a] = m
+	}
+	return m[b]
+}
+
+// factVisible: fact i may be used by an obligation generated in block ob.
+func (g *Gen) factVisible(i int, ob *ssa.BasicBlock) bool {
+	if ob == nil {
+		return true
+	}
+	if fb := g.factBlk[i]; fb != nil && fb.Parent() == ob.Parent() && !g.blockReaches(fb, ob) {
+		return false
+	}
+	// a fact about a value computed in a block that cannot precede the obligation says nothing
+	// about the obligation's path
+	for _, vb := range g.factValBlocks(i) {
+		if vb.Parent() == ob.Parent() && !g.blockReaches(vb, ob) {
+			return false
+		}
+	}
+	return true
+}
+
+// textVisible: the formula mentions no value computed in a block that cannot precede ob.
+func (g *Gen) textVisible(f string, ob *ssa.BasicBlock) bool {
+	if ob == nil {
+		return true
+	}
+	for _, vb := range g.valBlocksOf(f) {
+		if vb.Parent() == ob.Parent() && !g.blockReaches(vb, ob) {
+			return false
+		}
+	}
+	return true
+}
+
+func (g *Gen) factValBlocks(i int) []*ssa.BasicBlock {
+	g.visMu.Lock()
+	defer g.visMu.Unlock()
+	if g.factVals == nil {
+		g.factVals = map[int][]*ssa.BasicBlock{}
+	}
+	if bs, ok := g.factVals[i]; ok {
+		return bs
+	}
+	bs := g.valBlocksOf(g.facts[i])
+	g.factVals[i] = bs
+	return bs
+}
+
+func (g *Gen) valBlocksOf(f string) []*ssa.BasicBlock {
+	var bs []*ssa.BasicBlock
+	seen := map[*ssa.BasicBlock]bool{}
+	for j := 0; j+1 < len(f); j++ {
+		if f[j] != 'v' || f[j+1] != '.' || (j > 0 && f[j-1] != ' ' && f[j-1] != '(') {
+			continue
+		}
+		k := j
+		for k < len(f) && f[k] != ' ' && f[k] != ')' && f[k] != '(' {
+			k++
+		}
+		if b := g.valBlk[f[j:k]]; b != nil && !seen[b] {
+			seen[b] = true
+			bs = append(bs, b)
+		}
+		j = k
+	}
+	return bs
+}
+
 // addAssume records an assumed invariant / callee postcondition. These are the facts a
 // lighter proof attempt may drop when they are quantified (dropping hypotheses is sound).
 func (g *Gen) addAssume(f string) {
@@ -193,7 +311,7 @@ func (g *Gen) addObl(kind, label, goal string, pos token.Pos, desc string, cl *C
 	if label != "" {
 		name += "[" + label + "]"
 	}
-	o := &Obligation{Name: name, Kind: kind, Goal: goal, NFacts: len(g.facts), Pos: g.prog.Prog.Fset.Position(pos), Desc: desc, Clause: cl, Gen: g, FuncKey: g.key, Mode: g.fmode, Props: g.con.Props}
+	o := &Obligation{Name: name, Kind: kind, Goal: goal, NFacts: len(g.facts), Blk: g.curBlock, Pos: g.prog.Prog.Fset.Position(pos), Desc: desc, Clause: cl, Gen: g, FuncKey: g.key, Mode: g.fmode, Props: g.con.Props}
 	if only := g.con.Opts["only"]; only != "" && kind != only && kind != "cover" {
 		// a variant that looks at one kind of obligation only (e.g. lock-order): the others belong
 		// to the function's main contract and are not generated twice
@@ -1227,6 +1345,10 @@ func (g *Gen) define(v ssa.Value, term string) *SV {
 		n = g.fresh(n)
 	}
 	g.declareConst(n, g.sortOf(t))
+	if g.valBlk == nil {
+		g.valBlk = map[string]*ssa.BasicBlock{}
+	}
+	g.valBlk[n] = g.curBlock
 	g.addFact("(= " + n + " " + term + ")")
 	if cl, ok := g.constLen[term]; ok {
 		g.constLen[n] = cl
